@@ -91,7 +91,7 @@ def gen_cases(tier, seed):
                               "encoding": enc})
     for strategy in ("on disk", "in memory"):
         for senc in ("raw", "gzip"):
-            for op in ("store+close", "fetch_chunk", "file_ops"):
+            for op in ("store+close", "rewrite+close", "fetch_chunk", "file_ops"):
                 for enc in (("raw", "compressed_segmentation") if op == "store+close"
                             else ("raw",)):
                     cases.append({"kind": "sharded", "strategy": strategy, "shard_enc": senc,
@@ -106,7 +106,8 @@ def gen_cases(tier, seed):
     # cases that start threads / child processes come last (the storage cases fork)
     tail = [{"kind": "strace"}]
     for k in range(4 if tier == "quick" else 40):
-        tail.append({"kind": "http", "dseed": rnd.randrange(2 ** 32), "sharded": k % 2 == 1})
+        tail.append({"kind": "http", "dseed": rnd.randrange(2 ** 32), "sharded": k % 2 == 1,
+                     "userinfo": k % 4 in (0, 1)})
     for k in range(2 if tier == "quick" else 8):
         tail.append({"kind": "strace_cli", "seed": rnd.randrange(2 ** 32),
                      "gzip": k % 2 == 0, "max_points": 10 if tier == "quick" else 60})
@@ -248,6 +249,15 @@ class Scenario:
                     self.pending[("chunk", "k", c)] = a
                     self.pio.write_chunk(a, "k", c)
                 self.phase = "close"       # every chunk has been handed over
+                return self.acc.close()
+            if op == "rewrite+close":
+                # the scale is converted once more into the directory that already holds
+                # its shard files (other voxel values this time)
+                for c in self._shard_coords():
+                    a = _arr(np, c, 11 + self.variant)
+                    self.pending[("chunk", "k", c)] = a
+                    self.pio.write_chunk(a, "k", c)
+                self.phase = "close"
                 return self.acc.close()
             if op == "fetch_chunk":
                 return [self.pio.read_chunk("k", c).tobytes()
@@ -393,7 +403,7 @@ def run_storage(case):
                 obs["faults_fired"] += 1
                 label = f"{op}#{k} {errno.errorcode[err]} on {os.path.relpath(path, top)}"
                 retried_ok = False
-                if outcome[0] == "raised" and case["op"] == "store+close" \
+                if outcome[0] == "raised" and case["op"] in ("store+close", "rewrite+close") \
                         and getattr(sc, "phase", None) == "close":
                     # the cause of the failure is gone: closing again either fails again
                     # or, if it returns normally, must really have written everything
@@ -470,7 +480,7 @@ def run_storage(case):
                 return {"violations": v[:6], "obs": obs, "evals": obs["fault_runs"]}
     # ---- crash enumeration (write-side operations only)
     if case["op"] in ("store_chunk_new", "store_chunk_overwrite", "store_file",
-                      "create+write", "store+close", "file_ops"):
+                      "create+write", "store+close", "rewrite+close", "file_ops"):
         for k, op, path in events:
             for when in ("before", "after"):
                 top = tempfile.mkdtemp(prefix="c18c-")
@@ -544,7 +554,7 @@ def run_storage(case):
     # and a gzip-stored file (whose truncation the stream format reveals) either complete
     # or failing with the documented error - never shorter contents served as if complete
     if case["op"] in ("store_chunk_new", "store_chunk_overwrite", "store_file",
-                      "create+write", "store+close", "file_ops") and len(v) <= 5:
+                      "create+write", "store+close", "rewrite+close", "file_ops") and len(v) <= 5:
         top = tempfile.mkdtemp(prefix="c18t-")
         try:
             tmp = os.path.join(top, "tmp")
@@ -626,7 +636,7 @@ def run_storage(case):
     # ignored) makes write(2) store only part of a buffer and fail with EFBIG afterwards -
     # the behaviour of a full disk or quota, which no Python-level exception can imitate
     if case["op"] in ("store_chunk_new", "store_chunk_overwrite", "store_file",
-                      "create+write", "store+close", "file_ops") and len(v) <= 5:
+                      "create+write", "store+close", "rewrite+close", "file_ops") and len(v) <= 5:
         import resource
         import signal
         for limit in (0, 1, 7, 40, 100, 250, 600, 1500, 5000):
@@ -732,6 +742,9 @@ def _pending_of(np, case, sc):
         if op == "store+close":
             return {("chunk", "k", c): _arr(np, c, 5 + sc.variant)
                     for c in sc._shard_coords()}
+        if op == "rewrite+close":
+            return {("chunk", "k", c): _arr(np, c, 11 + sc.variant)
+                    for c in sc._shard_coords()}
         if op == "file_ops":
             return {("file", "mesh/frag"): b"MESH" * 30}
     return {}
@@ -761,7 +774,10 @@ def run_http(case):
         for ch in chunks:
             for mode in HTTP_FAULTS:
                 for skip in ((0, 1, 2) if case["sharded"] else (0,)):
-                    h = accessor_mod.get_accessor_for_url(srv.base + "/ds")
+                    # (half of the datasets are addressed with user information in the URL)
+                    h = accessor_mod.get_accessor_for_url(
+                        (srv.base.replace("http://", "http://t0ken@")
+                         if case.get("userinfo") else srv.base) + "/ds")
                     srv.arm(mode, "/" + ch[0] + "/", skip=skip)
                     try:
                         r = h.fetch_chunk(*ch)
